@@ -72,6 +72,8 @@ def cases(draw):
                  'segment_mru': draw(st.sampled_from([1, 5, 64, 10239, 10240, 10241, 2 ** 31 - 1, 2 ** 31, 2 ** 64 - 1])),
                  'transfer_mru': draw(s9.u64()), 'nodeid': draw(s9.node_ids())},
         'script': script, 'horizon': draw(st.sampled_from([0, 1500, 12000])),
+        # the peer is slow during negotiation: virtual ms before its contact header and before its SESS_INIT
+        'pre_delay': [draw(st.sampled_from([0, 0, 0, 999, ka * 1000 + 1, 61000])), draw(st.sampled_from([0, 0, 0, 999, ka * 1000 + 1, 61000]))],
     }
 
 
@@ -87,6 +89,9 @@ def enumerate_cases(tier):
                 'peer': {'keepalive': pka, 'segment_mru': 64, 'transfer_mru': 2 ** 40, 'nodeid': 'dtn://peer/'},
                 'horizon': 21000}
         yield dict(base, script=[['silent', 1]])
+        if ka:
+            yield dict(base, script=[['silent', 1]], pre_delay=[ka * 1000 + 1, 0])
+            yield dict(base, script=[['silent', 1]], pre_delay=[0, ka * 1000 + 1])
         neg = min(ka, pka)
         if 0 < neg < 100:
             yield dict(base, script=[['peer-keepalive', neg * 1000 - 1], ['peer-keepalive', neg * 1000 - 1], ['silent', neg * 1000 + 1]])
@@ -154,15 +159,26 @@ def execute(case):
         except OSError:
             pass
 
-    # handshake
+    # handshake (the peer may be slow: no timer of the endpoint may produce anything before the session exists)
+    pre = case.get('pre_delay') or [0, 0]
     pump()
+    if pre[0]:
+        advance(simloop.CLOCK.now_ms + int(pre[0]))
     peer_send({'t': 'CH', 'magic': r.MAGIC.hex(), 'version': 4, 'flags': 0})
     pump()
+    if pre[1]:
+        advance(simloop.CLOCK.now_ms + int(pre[1]))
     peer_send({'t': 'SESS_INIT', 'keepalive': peer_cfg['keepalive'], 'segment_mru': peer_cfg['segment_mru'],
                'transfer_mru': peer_cfg['transfer_mru'], 'nodeid': peer_cfg['nodeid'], 'ext': []})
     pump()
     t_est = simloop.CLOCK.now_ms
     neg = min(ka, peer_cfg['keepalive'])
+    early = [m['t'] for m in r.parse_stream(world.real_wire())[0]]
+    if early[:2] != ['CH', 'SESS_INIT'][:len(early[:2])] or any(t not in ('CH', 'SESS_INIT') for t in early[:2]):
+        out.fail('message-before-sess-init', 'the endpoint wrote %s while the peer was slow to negotiate (delays %s ms): only the '
+                 'contact header and then SESS_INIT may be written before the session exists' % (early[:4], pre))
+    if any(pre):
+        out.label('slow-negotiation')
     if hdl._state != 'established':
         out.fail('not-established', 'handshake with a conforming peer ended in state %s' % hdl._state)
         return out
